@@ -4,20 +4,23 @@
 //! tools of `llvm_half`.
 //!
 //! Streams (one `Rng::new(rep.seed ^ 0xC2077)`):
+//! * corpus/C20/*.json with op `c20.llvmtree.corpus` first (minimised past failures: the tree of the
+//!   former finding C20-findbin-stale-sniff-buffer).
 //! * `llvmtree.find` — generated trees: nested directories (some hidden), regular files (ELF / MZ
-//!   headed and >= 128 bytes, text >= 128 bytes, empty), links: to a file, chains
-//!   (`libx.so -> libx.so.1 -> libx.so.1.0`), to a directory, dangling, out of the tree, back to an
-//!   ancestor (loop); the root given directly, through a link to the directory, or as a link to a
-//!   file. The REAL `grcov::find_binaries` in-process against `c20.llvmtree.find`, and against the
-//!   independent expectation "the visible regular application files, each once, no link".
-//! * `llvmtree.short` — the same with files of 1-3 bytes that are a prefix of a magic number: the
-//!   answer depends on the visiting order (stale per-thread sniff buffer); only bounds are checked
-//!   and the false positives are counted (finding C20-findbin-stale-sniff-buffer, reported, not a
-//!   verdict: real llvm-cov rejects such files and the report is unaffected).
+//!   headed and >= 128 bytes, text, empty, and 1-4 byte files that are a magic number or a prefix of
+//!   one: `\x7f`, `M`, `\x7fELF`, `MZ`, `BC`), a `.ignore` file naming one entry in a third of the
+//!   trees, links: to a file, chains (`libx.so -> libx.so.1 -> libx.so.1.0`), to a directory,
+//!   dangling, out of the tree, back to an ancestor (loop); the root given directly, through a link
+//!   to the directory, or as a link to a file. The REAL `grcov::find_binaries` in-process, compared
+//!   exactly with `c20.llvmtree.find`; and the PROPERTY oracle: every regular executable below the
+//!   tree — hidden or ignored or not — is returned exactly once, no link, nothing else. A missing
+//!   executable whose path has a component starting with '.' or that the generated ignore file
+//!   matches is the known finding C20-findbin-hidden-or-ignored-skipped (named matcher).
 //! * `llvmtree.e2e` — the `grcov` binary on such trees with stub llvm-profdata / llvm-cov: the
-//!   `llvm-cov export` invocations are exactly the visible regular executables, once each per merged
-//!   profile, and the report equals the aggregate of those exports (every link also has a linked
-//!   `.lcov`, so a binary exported twice through a link would double its counts).
+//!   `llvm-cov export` invocations are the regular executables, once each per merged profile (same
+//!   matcher for hidden / ignored ones), and the report equals the aggregate of the exports made
+//!   (every link also has a linked `.lcov`, so a binary exported twice through a link would double
+//!   its counts).
 use corrlib::pipe::*;
 use corrlib::*;
 use serde_json::json;
@@ -37,7 +40,8 @@ enum Kind {
 struct Ent {
     path: String, // relative to the root
     kind: Kind,
-    app: bool, // the generator's own knowledge: content is an application (ELF / MZ magic)
+    app: bool, // the generator's own knowledge: content is an application (ELF / MZ / BC magic, long enough)
+    ignored: bool, // the generated `.ignore` file matches this entry or a directory above it
 }
 
 fn elf() -> Vec<u8> {
@@ -71,7 +75,7 @@ fn gen_tree(rng: &mut Rng, short: bool) -> Vec<Ent> {
                 continue;
             }
             dirs.push(d.to_string());
-            ents.push(Ent { path: d.to_string(), kind: Kind::Dir, app: false });
+            ents.push(Ent { path: d.to_string(), kind: Kind::Dir, app: false, ignored: false });
         }
     }
     let join = |d: &str, n: &str| if d.is_empty() { n.to_string() } else { format!("{}/{}", d, n) };
@@ -79,18 +83,21 @@ fn gen_tree(rng: &mut Rng, short: bool) -> Vec<Ent> {
     let mut files: Vec<String> = vec![];
     for i in 0..nfiles {
         let d = rng.pick(&dirs).clone();
-        let (name, content, app) = match rng.below(if short { 8 } else { 6 }) {
+        let (name, content, app) = match rng.below(if short { 11 } else { 6 }) {
             0 | 1 => (format!("app{}", i), elf(), true),
             2 => (format!("tool{}.exe", i), mz(), true),
             3 => (format!("notes{}.txt", i), text(), false),
             4 => (format!("empty{}", i), vec![], false),
             5 => (format!(".hid{}", i), elf(), true),
             6 => (format!("s{}", i), vec![0x7f], false),
-            _ => (format!("m{}", i), b"M".to_vec(), false),
+            7 => (format!("m{}", i), b"M".to_vec(), false),
+            8 => (format!("four{}", i), vec![0x7f, b'E', b'L', b'F'], false), // is_elf wants more than 52 bytes
+            9 => (format!("mz{}", i), b"MZ".to_vec(), true),
+            _ => (format!("bc{}", i), b"BC".to_vec(), true),
         };
         let p = join(&d, &name);
         files.push(p.clone());
-        ents.push(Ent { path: p, kind: Kind::File(content), app });
+        ents.push(Ent { path: p, kind: Kind::File(content), app, ignored: false });
     }
     // links
     for i in 0..rng.range(1, 6) {
@@ -116,10 +123,29 @@ fn gen_tree(rng: &mut Rng, short: bool) -> Vec<Ent> {
         if ents.iter().any(|e| e.path == p) {
             continue;
         }
-        ents.push(Ent { path: p.clone(), kind: Kind::Link(target), app: false });
+        ents.push(Ent { path: p.clone(), kind: Kind::Link(target), app: false, ignored: false });
         if name.starts_with("ln") && rng.chance(1, 2) {
             // a second link to the first: libx.so -> libx.so.N -> file
-            ents.push(Ent { path: format!("{}.chain", p), kind: Kind::Link(format!("{}", Path::new(&p).file_name().unwrap().to_str().unwrap())), app: false });
+            ents.push(Ent { path: format!("{}.chain", p), kind: Kind::Link(format!("{}", Path::new(&p).file_name().unwrap().to_str().unwrap())), app: false, ignored: false });
+        }
+    }
+    // an ignore file at the root naming one entry (a file's or a directory's base name: it matches
+    // at any depth, and everything below a matched directory)
+    if rng.chance(1, 3) {
+        let names: Vec<String> = ents
+            .iter()
+            .filter(|e| !matches!(e.kind, Kind::Link(_)))
+            .map(|e| e.path.rsplit('/').next().unwrap().to_string())
+            .filter(|n| !n.starts_with('.'))
+            .collect();
+        if !names.is_empty() {
+            let pat = rng.pick(&names).clone();
+            for e in ents.iter_mut() {
+                if e.path.split('/').any(|c| c == pat) {
+                    e.ignored = true;
+                }
+            }
+            ents.push(Ent { path: ".ignore".into(), kind: Kind::File(format!("{}\n", pat).into_bytes()), app: false, ignored: false });
         }
     }
     ents
@@ -150,7 +176,7 @@ fn model_request(ents: &[Ent]) -> String {
                 Kind::Link(_) => "L".to_string(),
                 Kind::File(c) => format!("F{}", hex(&c[..c.len().min(128)])),
             };
-            format!("{}~{}", path.join("/"), k)
+            format!("{}~{}{}", path.join("/"), k, if e.ignored { "~I" } else { "" })
         })
         .collect();
     format!("c20.llvmtree.find {}", items.join(";"))
@@ -164,12 +190,79 @@ fn show_paths(ps: &BTreeSet<String>) -> String {
     }
 }
 
+const FINDING_HIDDEN: &str = "C20-findbin-hidden-or-ignored-skipped";
+
+/// named matcher of the known finding: every missing executable has a path component starting with
+/// '.' or is matched by the generated ignore file — and nothing else is wrong
+fn only_hidden_or_ignored_missing(ents: &[Ent], missing: &[String]) -> bool {
+    !missing.is_empty()
+        && missing.iter().all(|m| {
+            let base = m.rsplit('/').next().unwrap_or(m);
+            ents.iter().any(|e| (e.path == *m || e.path.rsplit('/').next() == Some(base)) && (hidden(&e.path) || e.ignored))
+        })
+}
+
+fn describe(ents: &[Ent]) -> serde_json::Value {
+    json!(ents
+        .iter()
+        .map(|e| json!({"path": e.path, "ignored": e.ignored, "app": e.app,
+            "kind": match &e.kind { Kind::Dir => "dir".to_string(), Kind::Link(t) => format!("link:{}", t), Kind::File(c) => format!("file:{}:{}", c.len(), hex(&c[..c.len().min(4)])) }}))
+        .collect::<Vec<_>>())
+}
+
+fn corpus(rep: &mut Report) {
+    let mut files: Vec<PathBuf> = std::fs::read_dir("/verif/corpus/C20").map(|d| d.flatten().map(|e| e.path()).collect()).unwrap_or_default();
+    files.sort();
+    for (i, f) in files.iter().enumerate() {
+        let v: serde_json::Value = match std::fs::read_to_string(f).ok().and_then(|t| serde_json::from_str(&t).ok()) {
+            Some(v) => v,
+            None => continue,
+        };
+        if v["op"] != "c20.llvmtree.corpus" {
+            continue;
+        }
+        rep.count("llvmtree.corpus.case");
+        let ents: Vec<Ent> = v["entries"]
+            .as_array()
+            .cloned()
+            .unwrap_or_default()
+            .iter()
+            .map(|e| Ent {
+                path: e["path"].as_str().unwrap().to_string(),
+                kind: match e["kind"].as_str().unwrap_or("file") {
+                    "dir" => Kind::Dir,
+                    k if k.starts_with("link:") => Kind::Link(k[5..].to_string()),
+                    _ => Kind::File(unhex(e["hex"].as_str().unwrap_or(""))),
+                },
+                app: false,
+                ignored: false,
+            })
+            .collect();
+        let base = rep.workdir.join(format!("lt_corpus{}", i));
+        materialise(&base, &ents);
+        let mut want: Vec<String> = v["expect"].as_array().cloned().unwrap_or_default().iter().map(|x| x.as_str().unwrap().to_string()).collect();
+        want.sort();
+        for _ in 0..v["repeat"].as_u64().unwrap_or(1) {
+            let root = base.join("tree");
+            let root2 = root.clone();
+            let r = guarded(move || grcov::find_binaries(&root2));
+            let mut got: Vec<String> = r.clone().unwrap_or_default().iter().map(|p| p.strip_prefix(&root).unwrap().to_str().unwrap().to_string()).collect();
+            got.sort();
+            rep.case(&format!("corpus {}", f.display()), true);
+            if r.is_err() || got != want {
+                rep.fail("oracle", None, format!("corpus case {}: find_binaries returned {:?}, expected {:?}", f.display(), got, want), json!({"op": "c20.llvmtree.corpus", "file": f.display().to_string()}));
+                break;
+            }
+        }
+    }
+}
+
 fn stream_find(rep: &mut Report, rng: &mut Rng) {
     let n = rep.budget(60, 5);
     let mut reqs = vec![];
     let mut got_all = vec![];
     for c in 0..n {
-        let short = c % 4 == 3;
+        let short = c % 3 == 2;
         let ents = gen_tree(rng, short);
         let base = rep.workdir.join(format!("lt{}", c));
         materialise(&base, &ents);
@@ -184,14 +277,16 @@ fn stream_find(rep: &mut Report, rng: &mut Rng) {
         };
         let root2 = root.clone();
         let res = guarded(move || grcov::find_binaries(&root2));
-        let case = json!({"op": "c20.llvmtree.find", "mode": mode, "short": short,
-            "entries": ents.iter().map(|e| json!({"path": e.path, "kind": match &e.kind { Kind::Dir => "dir".to_string(), Kind::Link(t) => format!("link:{}", t), Kind::File(c) => format!("file:{}:{}", c.len(), hex(&c[..c.len().min(4)])) }})).collect::<Vec<_>>()});
+        let case = json!({"op": "c20.llvmtree.find", "mode": mode, "short": short, "entries": describe(&ents)});
         let nlinks = ents.iter().filter(|e| matches!(e.kind, Kind::Link(_))).count();
-        rep.case(&format!("find {} {:?}", mode, ents.iter().map(|e| (&e.path, match &e.kind { Kind::Dir => "d".to_string(), Kind::Link(t) => format!("l{}", t), Kind::File(c) => format!("f{}", c.len()) })).collect::<Vec<_>>()), nlinks > 0);
+        rep.case(&format!("find {} {:?}", mode, ents.iter().map(|e| (&e.path, e.ignored, match &e.kind { Kind::Dir => "d".to_string(), Kind::Link(t) => format!("l{}", t), Kind::File(c) => format!("f{}", c.len()) })).collect::<Vec<_>>()), nlinks > 0);
         rep.count(&format!("llvmtree.find.{}", mode));
         rep.count_n("llvmtree.find.links", nlinks as u64);
-        if ents.iter().any(|e| e.app && hidden(&e.path)) {
-            rep.count("llvmtree.find.hidden_executable_in_tree");
+        if short {
+            rep.count("llvmtree.find.tree_with_short_files");
+        }
+        if ents.iter().any(|e| e.path == ".ignore") {
+            rep.count("llvmtree.find.tree_with_ignore_file");
         }
         if c == 0 {
             rep.sample(case.clone());
@@ -211,33 +306,27 @@ fn stream_find(rep: &mut Report, rng: &mut Rng) {
                 dup = true;
             }
         }
-        // independent expectation
-        let must: BTreeSet<String> = ents.iter().filter(|e| e.app && !hidden(&e.path) && matches!(&e.kind, Kind::File(c) if c.len() >= 128)).map(|e| e.path.clone()).collect();
-        let may: BTreeSet<String> = ents.iter().filter(|e| !hidden(&e.path) && matches!(&e.kind, Kind::File(c) if !c.is_empty())).map(|e| e.path.clone()).collect();
-        if dup {
-            rep.fail("oracle", None, format!("a path is returned twice: {:?}", paths), case.clone());
-        }
-        if short {
-            rep.count("llvmtree.short.case");
-            if !must.is_subset(&got) || !got.is_subset(&may) {
-                rep.fail("oracle", None, format!("find_binaries returned {:?}; every visible executable {:?} must be there and nothing but visible non-empty regular files", got, must), case.clone());
+        // ---- the property: every regular executable below the tree exactly once, nothing else
+        let all_exec: BTreeSet<String> = ents.iter().filter(|e| e.app && matches!(e.kind, Kind::File(_))).map(|e| e.path.clone()).collect();
+        let missing: Vec<String> = all_exec.iter().filter(|p| !got.contains(*p)).cloned().collect();
+        let extra: Vec<String> = got.iter().filter(|p| !all_exec.contains(*p)).cloned().collect();
+        if dup || !extra.is_empty() {
+            rep.fail("oracle", None, format!("find_binaries returned {:?}: twice or not a regular executable of the tree: {:?} (links must be neither returned nor followed)", paths, extra), case.clone());
+        } else if !missing.is_empty() {
+            let named = only_hidden_or_ignored_missing(&ents, &missing);
+            if named {
+                rep.count("llvmtree.find.hidden_or_ignored_executable_skipped");
             }
-            if got.iter().any(|p| !must.contains(p)) {
-                // finding C20-findbin-stale-sniff-buffer: a 1-byte file judged on the previous file's bytes
-                rep.count("llvmtree.short.stale_buffer_false_positive");
-            }
-            continue;
+            rep.fail("oracle", if named { Some(FINDING_HIDDEN) } else { None }, format!("executables below --binary-path that find_binaries does not return: {:?}", missing), case.clone());
         }
-        if got != must {
-            rep.fail("oracle", None, format!("find_binaries returned {:?}, the visible regular executables are {:?} (links must be neither returned nor followed)", got, must), case.clone());
-        }
+        // ---- the model: exactly what the code does
         reqs.push(model_request(&ents));
-        got_all.push((show_paths(&got), case));
+        got_all.push((format!("{} executables={}", show_paths(&got), all_exec.len()), case));
     }
     // the root given as a link to a FILE: returned as it is
     {
         let base = rep.workdir.join("lt_filelink");
-        materialise(&base, &[Ent { path: "app".into(), kind: Kind::File(elf()), app: true }, Ent { path: "app.so".into(), kind: Kind::Link("app".into()), app: false }]);
+        materialise(&base, &[Ent { path: "app".into(), kind: Kind::File(elf()), app: true, ignored: false }, Ent { path: "app.so".into(), kind: Kind::Link("app".into()), app: false, ignored: false }]);
         let r = guarded(move || grcov::find_binaries(&base.join("tree/app.so")));
         rep.case("find root_is_link_to_file", true);
         rep.count("llvmtree.find.root_is_link_to_file");
@@ -247,10 +336,9 @@ fn stream_find(rep: &mut Report, rng: &mut Rng) {
     }
     let ans = run_model(&reqs, &rep.workdir, "llvmtree_find");
     for i in 0..reqs.len() {
-        let want = format!("{} stable=1", got_all[i].0);
-        if ans[i] != want {
+        if ans[i] != got_all[i].0 {
             rep.disagreements_checked += 1;
-            rep.fail("disagreement", None, format!("find_binaries: impl {} model {}", want, ans[i]), json!({"op": "c20.llvmtree.find", "case": got_all[i].1, "request": reqs[i]}));
+            rep.fail("disagreement", None, format!("find_binaries: impl {} model {}", got_all[i].0, ans[i]), json!({"op": "c20.llvmtree.find", "case": got_all[i].1, "request": reqs[i]}));
         }
     }
 }
@@ -278,7 +366,7 @@ fn stream_e2e(rep: &mut Report, rng: &mut Rng) {
                 k += 1;
                 let lcov = format!("SF:{}\nDA:1,{}\nDA:2,0\nend_of_record\n", sf, k).into_bytes();
                 std::fs::write(tree.join(format!("{}.lcov", e.path)), &lcov).unwrap();
-                exports.push((Path::new(&e.path).file_name().unwrap().to_str().unwrap().to_string(), lcov, !hidden(&e.path)));
+                exports.push((Path::new(&e.path).file_name().unwrap().to_str().unwrap().to_string(), lcov, !hidden(&e.path) && !e.ignored));
             }
         }
         std::fs::write(dir.join("outside/ext_app.lcov"), "SF:src/out.rs\nDA:1,7\nend_of_record\n").unwrap();
@@ -310,7 +398,7 @@ fn stream_e2e(rep: &mut Report, rng: &mut Rng) {
         std::env::remove_var("STUB_LOG");
         let nlinks = ents.iter().filter(|e| matches!(e.kind, Kind::Link(_))).count();
         let case = json!({"op": "c20.llvmtree.e2e", "threads": threads, "merges": merges,
-            "entries": ents.iter().map(|e| json!({"path": e.path, "kind": match &e.kind { Kind::Dir => "dir".to_string(), Kind::Link(t) => format!("link:{}", t), Kind::File(c) => format!("file:{}", c.len()) }, "app": e.app})).collect::<Vec<_>>()});
+            "entries": describe(&ents)});
         rep.case(&format!("e2e {} {:?}", merges, ents.iter().map(|e| &e.path).collect::<Vec<_>>()), nlinks > 0);
         rep.count(&format!("llvmtree.e2e.merges={}", merges));
         if out.exit != Some(0) {
@@ -321,19 +409,34 @@ fn stream_e2e(rep: &mut Report, rng: &mut Rng) {
         let nmerge = logtext.lines().filter(|l| l.starts_with("PROFDATA")).count();
         let mut exported: Vec<String> = logtext.lines().filter(|l| l.starts_with("COV export ")).map(|l| l.split(' ').nth(2).unwrap().to_string()).collect();
         exported.sort();
+        // the property: EVERY regular executable below the tree once per merged profile
         let mut want: Vec<String> = vec![];
+        let mut want_walked: Vec<String> = vec![];
         for _ in 0..merges {
-            want.extend(exports.iter().filter(|e| e.2).map(|e| e.0.clone()));
+            want.extend(exports.iter().map(|e| e.0.clone()));
+            want_walked.extend(exports.iter().filter(|e| e.2).map(|e| e.0.clone()));
         }
         want.sort();
+        want_walked.sort();
         if nmerge != merges {
             rep.fail("oracle", None, format!("{} merge invocation(s), expected {}", nmerge, merges), case.clone());
         }
         if exported != want {
-            rep.fail("oracle", None, format!("llvm-cov export invocations {:?}; expected every visible regular executable once per merged profile: {:?}", exported, want), case.clone());
-        }
-        if exports.iter().any(|e| !e.2) {
-            rep.count("llvmtree.e2e.hidden_executable_not_exported");
+            let missing: Vec<String> = {
+                let mut m = want.clone();
+                for x in &exported {
+                    if let Some(i) = m.iter().position(|y| y == x) {
+                        m.remove(i);
+                    }
+                }
+                m
+            };
+            let named = exported == want_walked && only_hidden_or_ignored_missing(&ents, &missing);
+            if named {
+                rep.count("llvmtree.e2e.hidden_or_ignored_executable_not_exported");
+            }
+            rep.fail("oracle", if named { Some(FINDING_HIDDEN) } else { None },
+                format!("llvm-cov export invocations {:?}; expected every regular executable below --binary-path once per merged profile: {:?}", exported, want), case.clone());
         }
         // report = aggregate of those exports (once per merge)
         let mut inputs: Vec<Input> = vec![];
@@ -355,11 +458,12 @@ fn stream_e2e(rep: &mut Report, rng: &mut Rng) {
 pub fn run(rep: &mut Report) {
     rep.rule.push_str(
         "; part LlvmTree: binary trees with links (to files, chains, to directories, dangling, out of the tree, loops), \
-         hidden entries and 1-byte files: find_binaries in-process against Consumer.FindBin and the independent \
+         hidden entries, ignore files and 1-4 byte files: find_binaries in-process against Consumer.FindBin and the independent \
          expectation, and the grcov binary with stub tools (exports = visible regular executables, once per merged \
          profile; report = aggregate); non-trivial = the tree contains a link",
     );
     let mut rng = Rng::new(rep.seed ^ 0xC2077);
+    corpus(rep);
     stream_find(rep, &mut rng);
     stream_e2e(rep, &mut rng);
 }
